@@ -103,7 +103,9 @@ func NewFilterFS(fs FS, opt *FilterOpt) (FS, error) {
 		}
 	}
 
-	patternChars := "*[]?^"
+	// ({, | and } are not glob syntax, but the matcher lets them through to
+	// the regular expression it compiles for a pattern with a glob)
+	patternChars := "*[]?^{|}"
 	if filepath.Separator != '\\' {
 		patternChars += `\`
 	}
